@@ -104,3 +104,53 @@ func TestTableArgumentOrder(t *testing.T) {
 	pk.Exhaustive("table-argument-order")
 	col.Done(t)
 }
+
+// "returns exactly the function's result": also when the function returns from the middle of an expression (the
+// operands that were pending stay behind on the core's stack - the open finding C01-007 - but what the host is handed
+// is the result). Only SpawnSync is used, which does not expose the finished core's stack.
+func TestTableReturnFromOperandPosition(t *testing.T) {
+	pk.SkipIfReplay(t)
+	col := pk.NewCollector()
+	prog := `let calls = 0;
+fn tick(n: int) -> int { calls += 1; 100 + if n > 2 { return n + 1; } else { n } }
+fn find(k: int) -> int {
+    for i in 0..10 { let v = 5 * { if i == k { return i * 100; } 1 }; calls += v - 5; }
+    0 - 1
+}
+fn guarded(n: int) -> int { 7 + (try { if n < 0 { return n + 1; } n } catch e { 0 }) }
+fn label(n: int) -> str { "<" + (if n == 0 { return "zero"; } else { n.to_string() }) + ">" }
+fn nested(n: int) -> int { 1 + (2 * (3 + { if n > 0 { return n; } 4 })) }
+fn count() -> int { calls }
+fn main() {}
+`
+	i := func(v int64) hs.WV { return hs.WV{V: hs.IntV(v)} }
+	type call struct {
+		fn   string
+		arg  *hs.WV
+		ret  hs.Value
+		retT hs.Type
+	}
+	arg := func(v int64) *hs.WV { w := i(v); return &w }
+	calls := []call{
+		{"tick", arg(3), hs.IntV(4), hs.TInt}, {"tick", arg(1), hs.IntV(101), hs.TInt}, {"tick", arg(7), hs.IntV(8), hs.TInt},
+		{"find", arg(3), hs.IntV(300), hs.TInt}, {"find", arg(23), hs.IntV(-1), hs.TInt}, {"find", arg(0), hs.IntV(0), hs.TInt},
+		{"guarded", arg(-2), hs.IntV(-1), hs.TInt}, {"guarded", arg(5), hs.IntV(12), hs.TInt},
+		{"label", arg(0), hs.StrV("zero"), hs.TStr}, {"label", arg(4), hs.StrV("<4>"), hs.TStr},
+		{"nested", arg(9), hs.IntV(9), hs.TInt}, {"nested", arg(0), hs.IntV(15), hs.TInt},
+		{"count", nil, hs.IntV(3), hs.TInt}, {"tick", arg(5), hs.IntV(6), hs.TInt}, {"count", nil, hs.IntV(4), hs.TInt},
+	}
+	c := Case{ProgCase: px.ProgCase{Modules: map[string]string{"main": prog}, Entry: "main", Limits: sb.DefaultLimits()}}
+	for _, cl := range calls {
+		st := Step{Fn: cl.fn, Ret: cl.retT, ExpOutcome: hs.Outcome{Class: "ok"}, ExpRet: hs.WV{V: cl.ret}}
+		if cl.arg != nil {
+			st.Params = []hs.Type{hs.TInt}
+			st.Args = []hs.WV{*cl.arg}
+		}
+		c.Steps = append(c.Steps, st)
+	}
+	pk.EvalN(len(c.Steps))
+	pk.NonTrivial("return from operand position", nil)
+	col.Report(c, checkHistory(c))
+	pk.Exhaustive("table-return-from-operand-position")
+	col.Done(t)
+}
